@@ -294,4 +294,154 @@ theorem groupingOp_union_needs_separation :
         { dt := .int, vals := [.i 0, .i 0] } := by
   decide +kernel
 
+/-! ## 3. lifting through the evaluation of the DAG -/
+
+/-- C02-Ids.3 (the lift) Let the system be built (`sysOf`, as in `plan`) from functions that are id
+constructors, grouped aggregations, vectorized rules with declared return type (with at least one
+argument, or without any input node), time conversions or `sum_by_p_id`; let `isId` mark exactly the id constructors other than
+`wthh_id` (no data column is marked); let every consumer of a marked node be a grouped aggregation
+using it as LAST argument (the group id) or `bg_id` using it as FIRST argument (`fg_id`); and let, in
+the run on the JOINT table `D` (`nA + nB` rows, the first `nA` = the persons of A), the validity and
+separation hypotheses of every id constructor hold on its evaluated arguments, every unmarked group
+id column separate A from the others, and `sum_by_p_id` pointers be closed on both parts
+(`ui_GoodFn`). Then every node computed on the joint table is computed on the first `nA` rows alone
+(same fuel), and the two values are related by `UnionIdRel`: marked nodes (computed group ids)
+induce on A the same partition as the restriction of the joint ids (the numbers may differ), all
+other nodes ARE the restriction of the joint value to the first `nA` rows. -/
+theorem sys_eval_union_ids {nA nB : Nat} (params : List (String × Val))
+    (specs : List (String × RSpec)) (fns : List Fn) (isId : String → Bool) (D : Dag.Data Col)
+    (hfns : ∀ f ∈ fns, ui_GoodFn params isId (sysOf params specs fns) D nA f)
+    (hD : ColsOK (nA + nB) (D.map (·.2))) (hDid : ∀ p ∈ D, isId p.1 = false)
+    (fuel : Nat) (t : String) (v : Col)
+    (h : Dag.eval (sysOf params specs fns) D fuel t = .ok v) :
+    ∃ vA, Dag.eval (sysOf params specs fns) (un_takeData nA D) fuel t = .ok vA ∧
+      UnionIdRel nA isId t v vA := by
+  obtain ⟨vA, h1, h2⟩ := ui_sys_eval_union_ids params specs fns isId D hfns hD hDid fuel t v h
+  exact ⟨vA, h1, h2.rel⟩
+
+/-- C02-Ids.3a In particular every unmarked target (everything except the derived ids themselves)
+computed for A alone is exactly the restriction of the joint result, although it may have been
+computed THROUGH group ids that are numbered differently in the two runs. -/
+theorem sys_eval_union_ids_value {nA nB : Nat} (params : List (String × Val))
+    (specs : List (String × RSpec)) (fns : List Fn) (isId : String → Bool) (D : Dag.Data Col)
+    (hfns : ∀ f ∈ fns, ui_GoodFn params isId (sysOf params specs fns) D nA f)
+    (hD : ColsOK (nA + nB) (D.map (·.2))) (hDid : ∀ p ∈ D, isId p.1 = false)
+    (fuel : Nat) (t : String) (v : Col) (ht : isId t = false)
+    (h : Dag.eval (sysOf params specs fns) D fuel t = .ok v) :
+    Dag.eval (sysOf params specs fns) (un_takeData nA D) fuel t = .ok (v.takeRows nA) := by
+  obtain ⟨vA, h1, h2⟩ := ui_sys_eval_union_ids params specs fns isId D hfns hD hDid fuel t v h
+  rw [h1, h2.unmarked ht]
+
+/-- C02-Ids.3b The invariants carried by the lift: every evaluated node is a scalar or has
+`nA + nB` rows; a marked node holds non-negative ids, and no id of the first `nA` rows occurs among
+the remaining rows. -/
+theorem sys_eval_union_ids_rows {nA nB : Nat} (params : List (String × Val))
+    (specs : List (String × RSpec)) (fns : List Fn) (isId : String → Bool) (D : Dag.Data Col)
+    (hfns : ∀ f ∈ fns, ui_GoodFn params isId (sysOf params specs fns) D nA f)
+    (hD : ColsOK (nA + nB) (D.map (·.2))) (hDid : ∀ p ∈ D, isId p.1 = false)
+    (fuel : Nat) (t : String) (v : Col)
+    (h : Dag.eval (sysOf params specs fns) D fuel t = .ok v) :
+    ColOK (nA + nB) v ∧ (isId t = true → (∀ x ∈ v.ints, 0 ≤ x) ∧ un_IdsSep nA v.ints) := by
+  obtain ⟨vA, _, h2⟩ := ui_sys_eval_union_ids params specs fns isId D hfns hD hDid fuel t v h
+  exact ⟨h2.1, fun hi => ⟨(h2.marked hi).2.1, (h2.marked hi).2.2.2.2⟩⟩
+
+/-! ### non-vacuity: the family of the examples above; `fg_id`, `bg_id`, `eg_id` are computed by the
+constructors, aggregated over, and a rule adds two of the aggregates -/
+
+/-- `def total(inc_fg, anz_bg) -> float: return inc_fg + anz_bg` -/
+private def fTot : FunDef :=
+  { name := "total", args := ["inc_fg", "anz_bg"],
+    body := [.ret (.bin .add (.name "inc_fg") (.name "anz_bg"))] }
+private def fFg : Fn :=
+  { name := "fg_id", args := ["p_id", "hh_id", "alter", "p_id_einstandspartner", "p_id_elternteil_1",
+      "p_id_elternteil_2"], ann := some .int, kind := .grouping .fg }
+private def fBg : Fn :=
+  { name := "bg_id", args := ["fg_id", "alter", "eigenbedarf_gedeckt"], ann := some .int, kind := .grouping .bg }
+private def fEg : Fn :=
+  { name := "eg_id", args := ["p_id", "p_id_einstandspartner"], ann := some .int, kind := .grouping .eg }
+private def fIncFg : Fn :=
+  { name := "inc_fg", args := ["inc", "fg_id"], ann := some .float, kind := .groupAgg .sum (some "inc") "fg_id" }
+private def fAnzBg : Fn :=
+  { name := "anz_bg", args := ["bg_id"], ann := some .int, kind := .groupAgg .count none "bg_id" }
+private def fIncEg : Fn :=
+  { name := "inc_eg", args := ["inc", "eg_id"], ann := some .float, kind := .groupAgg .max (some "inc") "eg_id" }
+private def fIncHh : Fn :=
+  { name := "inc_hh", args := ["inc", "hh_id"], ann := some .float, kind := .groupAgg .sum (some "inc") "hh_id" }
+private def fTotal : Fn :=
+  { name := "total", args := ["inc_fg", "anz_bg"], ann := some .float, kind := .rule fTot (some .float) none }
+private def fnsI : List Fn := [fFg, fBg, fEg, fIncFg, fAnzBg, fIncEg, fIncHh, fTotal]
+private def DI : Dag.Data Col :=
+  [("p_id", cPid), ("hh_id", cHh), ("alter", cAlter), ("p_id_einstandspartner", cPartner),
+   ("p_id_elternteil_1", cE1), ("p_id_elternteil_2", cE2), ("eigenbedarf_gedeckt", cEigen), ("inc", cInc)]
+private def isIdI (x : String) : Bool := x == "eg_id" || x == "fg_id" || x == "bg_id"
+
+/-- the joint run and the run on A alone -/
+example : Dag.eval (sysOf [] [] fnsI) DI 5 "fg_id" = .ok cFg ∧
+    Dag.eval (sysOf [] [] fnsI) (un_takeData 3 DI) 5 "fg_id" = .ok (cFg.takeRows 3) ∧
+    Dag.eval (sysOf [] [] fnsI) DI 5 "bg_id" = .ok cBg ∧
+    Dag.eval (sysOf [] [] fnsI) (un_takeData 3 DI) 5 "bg_id" = .ok (cBg.takeRows 3) ∧
+    Dag.eval (sysOf [] [] fnsI) DI 5 "total" =
+      .ok { dt := .float, vals := [.f 152, .f 151, .f 152, .f 31] } ∧
+    Dag.eval (sysOf [] [] fnsI) (un_takeData 3 DI) 5 "total" =
+      .ok { dt := .float, vals := [.f 152, .f 151, .f 152] } ∧
+    Dag.eval (sysOf [] [] fnsI) (un_takeData 3 DI) 5 "inc_hh" =
+      .ok { dt := .float, vals := [.f 150, .f 150, .f 150] } := by decide +kernel
+
+private theorem fnsI_good : ∀ f ∈ fnsI, ui_GoodFn [] isIdI (sysOf [] [] fnsI) DI 3 f := by
+  intro f hf
+  simp only [fnsI, List.mem_cons, List.not_mem_nil, or_false] at hf
+  rcases hf with rfl | rfl | rfl | rfl | rfl | rfl | rfl | rfl
+  · refine ⟨by decide +kernel, pi_idx_of_zipIdx (by decide +kernel), fun k args hargs => ?_⟩
+    have h0 : Dag.evalAll (Dag.eval (sysOf [] [] fnsI) DI 5) (freeArgs [] fFg) = .ok fgCols := by
+      decide +kernel
+    rw [pi_evalAll_det _ _ h0 hargs]
+    exact ⟨validFg, sepFg, fun h => by cases h⟩
+  · refine ⟨by decide +kernel, pi_idx_of_zipIdx (by decide +kernel), fun k args hargs => ?_⟩
+    have h0 : Dag.evalAll (Dag.eval (sysOf [] [] fnsI) DI 5) (freeArgs [] fBg) =
+        .ok [cFg, cAlter, cEigen] := by decide +kernel
+    rw [pi_evalAll_det _ _ h0 hargs]
+    refine ⟨validBg, sepBg, fun _ c hc => ?_⟩
+    cases hc
+    decide +kernel
+  · refine ⟨by decide +kernel, pi_idx_of_zipIdx (by decide +kernel), fun k args hargs => ?_⟩
+    have h0 : Dag.evalAll (Dag.eval (sysOf [] [] fnsI) DI 5) (freeArgs [] fEg) =
+        .ok [cPid, cPartner] := by decide +kernel
+    rw [pi_evalAll_det _ _ h0 hargs]
+    exact ⟨validEg, sepEg, fun h => by cases h⟩
+  · refine ⟨by decide +kernel, pi_idx_of_zipIdx (by decide +kernel), fun d hd hi => ?_⟩
+    cases hd
+    exact absurd hi (by decide +kernel)
+  · refine ⟨by decide +kernel, pi_idx_of_zipIdx (by decide +kernel), fun d hd hi => ?_⟩
+    cases hd
+    exact absurd hi (by decide +kernel)
+  · refine ⟨by decide +kernel, pi_idx_of_zipIdx (by decide +kernel), fun d hd hi => ?_⟩
+    cases hd
+    exact absurd hi (by decide +kernel)
+  · refine ⟨by decide +kernel, pi_idx_of_zipIdx (by decide +kernel), fun d hd _ k v hv => ?_⟩
+    cases hd
+    rw [un_eval_data (c := cHh) (by decide +kernel) hv]
+    decide +kernel
+  · exact ⟨rfl, Or.inl (show fTot.args ≠ [] by decide), by decide +kernel, by decide +kernel,
+      fun h => (by cases h), fun h => (by cases h)⟩
+
+example : ColsOK (3 + 1) (DI.map (·.2)) ∧ ∀ p ∈ DI, isIdI p.1 = false := by decide +kernel
+
+/-- all hypotheses of the lift hold together: the run on A alone computes `bg_id` with the same
+partition and `total` / `inc_eg` with the same values -/
+example : ∃ vA, Dag.eval (sysOf [] [] fnsI) (un_takeData 3 DI) 5 "bg_id" = .ok vA ∧
+    UnionIdRel 3 isIdI "bg_id" cBg vA :=
+  sys_eval_union_ids (nA := 3) (nB := 1) [] [] fnsI isIdI DI fnsI_good (by decide)
+    (by decide +kernel) 5 "bg_id" cBg (by decide +kernel)
+example : Dag.eval (sysOf [] [] fnsI) (un_takeData 3 DI) 5 "total" =
+    .ok (Col.takeRows 3 { dt := .float, vals := [.f 152, .f 151, .f 152, .f 31] }) :=
+  sys_eval_union_ids_value (nA := 3) (nB := 1) [] [] fnsI isIdI DI fnsI_good (by decide)
+    (by decide +kernel) 5 "total" _ (by decide +kernel) (by decide +kernel)
+example : Dag.eval (sysOf [] [] fnsI) (un_takeData 3 DI) 5 "inc_eg" =
+    .ok (Col.takeRows 3 { dt := .float, vals := [.f 100, .f 0, .f 100, .f 30] }) :=
+  sys_eval_union_ids_value (nA := 3) (nB := 1) [] [] fnsI isIdI DI fnsI_good (by decide)
+    (by decide +kernel) 5 "inc_eg" _ (by decide +kernel) (by decide +kernel)
+example : ColOK (3 + 1) cFg ∧ (isIdI "fg_id" = true → (∀ x ∈ cFg.ints, 0 ≤ x) ∧ un_IdsSep 3 cFg.ints) :=
+  sys_eval_union_ids_rows (nA := 3) (nB := 1) [] [] fnsI isIdI DI fnsI_good (by decide)
+    (by decide +kernel) 5 "fg_id" cFg (by decide +kernel)
+
 end GV.Simulate
